@@ -223,7 +223,8 @@ func (s *httpServer) doPUB(w http.ResponseWriter, req *http.Request, ps httprout
 	readMax := s.nsqd.getOpts().MaxMsgSize + 1
 	body, err := io.ReadAll(io.LimitReader(req.Body, readMax))
 	if err != nil {
-		return nil, http_api.Err{500, "INTERNAL_ERROR"}
+		// the request body could not be read (e.g. malformed chunked framing)
+		return nil, http_api.Err{400, "INVALID_REQUEST"}
 	}
 	if int64(len(body)) == readMax {
 		return nil, http_api.Err{413, "MSG_TOO_BIG"}
@@ -305,7 +306,8 @@ func (s *httpServer) doMPUB(w http.ResponseWriter, req *http.Request, ps httprou
 			block, err = rdr.ReadBytes('\n')
 			if err != nil {
 				if err != io.EOF {
-					return nil, http_api.Err{500, "INTERNAL_ERROR"}
+					// the request body could not be read (e.g. malformed chunked framing)
+					return nil, http_api.Err{400, "INVALID_REQUEST"}
 				}
 				exit = true
 			}
@@ -637,7 +639,8 @@ func (s *httpServer) doConfig(w http.ResponseWriter, req *http.Request, ps httpr
 		readMax := s.nsqd.getOpts().MaxMsgSize + 1
 		body, err := io.ReadAll(io.LimitReader(req.Body, readMax))
 		if err != nil {
-			return nil, http_api.Err{500, "INTERNAL_ERROR"}
+			// the request body could not be read (e.g. malformed chunked framing)
+			return nil, http_api.Err{400, "INVALID_REQUEST"}
 		}
 		if int64(len(body)) == readMax || len(body) == 0 {
 			return nil, http_api.Err{413, "INVALID_VALUE"}
